@@ -23,9 +23,9 @@ RULE = (
     "enumerate every depth-first-ordered point tree with <=6 (quick) / <=8 (thorough) points (Catalan(n-1) trees "
     "with n points, including the file that is one soma point) x soma form "
     "{single point, 3-point chain 1-2-3 with neurites on any soma point, 3-point chain along the last children so that neurites on inner "
-    "soma points are listed before the soma continues} x 5 neurite type patterns over {2,3,4} "
+    "soma points are listed before the soma continues} x 6 neurite type patterns over {0,2,3,4} "
     "(uniform; by subtree at the soma; change with depth inside a neurite; both; first listed child of every branch point differs while later "
-    "children continue the parent's type) with fixed generic coordinates "
+    "children continue the parent's type; a stretch of type 0 'undefined' between two other types) with fixed generic coordinates "
     "and radii (functions of the point index and the number of points only), dedupe identical files; read each file with the real "
     "jaxley.read_swc for ncomp {1,2,3} x max_branch_len {None, 18 um} x min_radius {None, 0.5 um} and compare "
     "branch count, parent relation, branch lengths, SWC-type groups and radii at compartment centres with the "
@@ -96,7 +96,7 @@ HYPOTHESES = [
     ("first_neurite_type_from_last_row", {"stale_first_neurite_type": True}),
     ("no_own_radius_at_root_junction", {"root_junction_keeps_root_radius": True}),
 ]
-PATTERNS = ["uniform", "by_subtree", "by_depth", "by_subtree_and_depth", "first_child_differs"]
+PATTERNS = ["uniform", "by_subtree", "by_depth", "by_subtree_and_depth", "first_child_differs", "undefined_mid"]
 
 
 # --------------------------------------------------------------------------- enumeration
@@ -152,6 +152,8 @@ def make_swc(parents, soma_pts, pattern):
             t = base if d <= 2 else nxt
         elif pattern == "by_subtree_and_depth":
             t = base if d <= 1 else nxt
+        elif pattern == "undefined_mid":
+            t = base if d <= 1 else (0 if d == 2 else 2)  # SWC type 0 ("undefined") between two other types
         elif pattern == "first_child_differs":
             t = inherited if inherited is not None else base
         else:
